@@ -192,6 +192,7 @@ func streamIsolation(o *Out, r *rand.Rand, n int, thorough bool) {
 	isolationTypes(o)
 	isolationHistories(o)
 	isolationLater(o)
+	isolationCopies(o)
 	// hidden shared state: a run that writes through every handle it can obtain (pointers to computed values, elements of
 	// literals, imported package tables, builtin results) must not change what an unrelated run computes afterwards
 	probeSrc := "probe([2 + 4, 1 - 2, 0 * 9, 4000 + 95, len(\"abc\"), [1, 2][0], \"a\" + \"b\", 1.5 * 2, true && true, nil ?? 7, {\"k\": 6}.k, -(-6), 6 % 7, 3 << 1, 13 >> 1, 6 | 0, 7 & 6])"
